@@ -17,7 +17,7 @@ LEVEL_TEXT = ("Exploration: every generated case drives two fresh instances thro
 RULE = ("case = (user numbers, current number, custom/default file names, no-database flag, 1-3 run steps each with its own switch vector "
         "{output,log,dump,error} x {file,string} + ErrorOn + per-number selected-output file switch + common selected-output string switch, an alternative "
         "vector for the second instance, a call method and a generated 1-3 simulation input: speciation/reaction/equilibrium phases (solution numbers 0-3), unknown-element warnings, "
-        "TITLE, KNOBS -logfile, PRINT -echo_input/-selected_output/-headings/-warnings/-user_print/-dump, USER_PRINT, SELECTED_OUTPUT/USER_PUNCH blocks, DUMP with explicit "
+        "TITLE, KNOBS -logfile, PRINT -echo_input/-selected_output/-headings/-warnings/-user_print/-dump, USER_PRINT, SELECTED_OUTPUT/USER_PUNCH blocks (incl. string cells of length 2^k-3..2^k+2, k=8..14), DELETE/COPY/SAVE, DUMP with explicit "
         "-append true|false, optional -file for DUMP and SELECTED_OUTPUT, one optional planned error of 6 kinds (parse, tidy, MIX, non-convergence, BASIC at punch "
         "time, no database); optional LoadDatabase(ok|missing file|bad string) steps between runs).  Non-trivial = in some call a stream has both sinks on and "
         "non-empty content, or the switch vector changes between two consecutive run steps; distinct by SHA-256 of the case.  Exhaustive leg: all 64 vectors "
@@ -63,10 +63,15 @@ def render_so_block(b, fileopt):
     for k, v in b["lists"].items():
         L.append(" -%s %s" % (k, " ".join(v)))
     if b["punch"]:
+        items = list(b["punch"])
         L.append("USER_PUNCH %d" % b["n"])
-        L.append(" -headings " + " ".join("u%d_%d" % (b["n"], i) for i in range(len(b["punch"]))))
         L.append(" -start")
-        L.append(" 10 PUNCH " + ", ".join(b["punch"]))
+        if b.get("longstr"):
+            # a string cell of a chosen length (buffer-size boundaries of the formatting helpers): doubling, then MID$
+            L += [' 1 a$ = "x"', " 2 FOR i = 1 TO 15", " 3 a$ = a$ + a$", " 4 NEXT i"]
+            items.insert(b["longstr"][1] % (len(items) + 1), "MID$(a$, 1, %d)" % b["longstr"][0])
+        L.insert(len(L) - 1 - (4 if b.get("longstr") else 0), " -headings " + " ".join("u%d_%d" % (b["n"], i) for i in range(len(items))))
+        L.append(" 10 PUNCH " + ", ".join(items))
         L.append(" -end")
     return "\n".join(L)
 
@@ -85,6 +90,9 @@ def so_block(draw, n):
         b["lists"][k] = draw(st.lists(st.sampled_from(SO_LISTS[k]), min_size=1, max_size=3, unique=True))
     if draw(st.booleans()):
         b["punch"] = draw(st.lists(st.sampled_from(PUNCH_ITEMS), min_size=1, max_size=4))
+        if draw(st.integers(0, 2)) == 0:
+            # string cell whose length sits at 2^k-3 .. 2^k+2, k = 8..14 (stack/heap buffer sizes of the print helpers are 2048, 4096, 8192, ...)
+            b["longstr"] = [2 ** draw(st.integers(8, 14)) + draw(st.integers(-3, 2)), draw(st.integers(0, 4))]
     return b
 
 
@@ -199,6 +207,11 @@ def run_step(draw, j, nums, seen, db, prev_sw, excl, state):
                 P.append(render_so_block(draw(so_block(n)), fo))
                 if fo:
                     so_opts[str(n)] = [k, fo]
+        if draw(st.integers(0, 2)) == 0:
+            # entity bookkeeping executed around the DUMP of the same simulation: COPY before it, DELETE after it (order of Phreeqc::run_simulations)
+            P.append(draw(st.sampled_from(["DELETE\n -all", "DELETE\n -solution %d" % num, "DELETE\n -solution 0 1 2 3\n -equilibrium_phases 0 1 2 3",
+                                           "DELETE\n -cells %d" % num, "COPY solution %d 5" % num, "COPY solution %d 6-8" % num, "SAVE solution 7",
+                                           "SAVE equilibrium_phases 7"])))
         # (a DUMP -file always sits in the first simulation too, so that a request left pending by an earlier call cannot be written
         #  to the old destination during this call: one dump destination per call)
         if draw(st.integers(0, 1 if j == 0 and k == 0 else 2)) == 0 or (dump_fileopt and k == 0):
